@@ -49,6 +49,11 @@ def chosen_cases(tb, rnd, tier):
     add(kex=[long_name, 'curve25519-sha256'])
     add(enc=['aes128-ctr', long_name])
     add(role='client', mac=[long_name])
+    # a KEXINIT close to the largest packet every implementation must accept (RFC 4253 6.1: 35000 bytes in total): ~33.9 KB of names
+    def many(prefix, n):
+        return ['%s%03d-%s@example.org' % (prefix, i, 'y' * (64 - len(prefix) - 3 - 1 - 12)) for i in range(n)]
+    add(kex=['curve25519-sha256'] + many('kx', 100), key=['ssh-ed25519'] + many('hk', 19), enc=['aes128-ctr'] + many('en', 99), mac=['hmac-sha2-256'] + many('ma', 99))
+    add(role='client', kex=many('kx', 100) + ['curve25519-sha256'], key=many('hk', 19) + ['ssh-ed25519'], enc=many('en', 99) + ['aes128-ctr'], mac=many('ma', 99) + ['hmac-sha2-256'])
     add(kex=[b'curve25519-sha256', b'caf\xe9-kex@example.org'])
     add(enc=[b'\xff\xfe-cipher', b'aes128-ctr'])
     add(mac=[b'hmac-sha2-256', b'mac-\xc3\x28@example.org'], role='client')
